@@ -4,6 +4,7 @@ from verifkit import read_lines
 
 REQUIRED = [
     "DaeVerif.C01.Props.match_is_first_match",
+    "DaeVerif.C01.Props.match_by_position_is_first_match",
     "DaeVerif.C01.Props.condition_meaning",
     "DaeVerif.C01.Props.port_range_inclusive",
     "DaeVerif.C01.Props.negated_mac_never_matches_zero_mac",
@@ -24,7 +25,6 @@ def run(ctx):
         "C12 theorems (trie query = CIDR containment) are used for ip/mac conditions; pkg/trie internals are C11's subject",
         "domain key-group truth is an oracle per packet (computed by the harness with a reference matcher for full/suffix/keyword/regex on lower-case names; the bit's meaning is property C11); the real Match uses the real AhocorasickSlimtrie",
         "the generator's typed program is the meaning of the text it renders (rendering code in harness/overlay/control/c01_test.go)",
-        "match-set POSITION bookkeeping (DomainSet.RuleIndex = index of the set in the array; Match tests bit i) is tied, not proved",
     ]
     ctx.prove(["DaeVerif.C01.Props"], ["DaeVerif.C01.Props"], ["DaeVerif/C01/*.lean", "DaeVerif/Common/RuleScan.lean"],
               extra_targets=["c01drv"])
